@@ -91,14 +91,14 @@ func (g *Gen) ConfigEntryJSON() string {
 		if lst["Protocol"] == "tcp" {
 			lst["Services"] = []M{{"Name": svc()}}
 		} else {
-			lst["Services"] = []M{{"Name": g.pick(append([]string{"*"}, g.U.Services...))}}
+			lst["Services"] = []M{{"Name": g.pick(append(g.wild(), g.U.Services...))}}
 			if simkit.Chance(g.R, 40) {
 				lst["Services"] = []M{{"Name": svc(), "Hosts": []string{"a.example.com"}}, {"Name": svc()}}
 			}
 		}
 		return mustJSON(M{"Kind": "ingress-gateway", "Name": g.pick([]string{"igw", "igw2"}), "Listeners": []M{lst}})
 	case 6:
-		svcs := []M{{"Name": g.pick(append([]string{"*"}, g.U.Services...))}}
+		svcs := []M{{"Name": g.pick(append(g.wild(), g.U.Services...))}}
 		if simkit.Chance(g.R, 40) {
 			svcs = append(svcs, M{"Name": svc(), "CAFile": "/etc/ca.pem", "SNI": "x.example.com"})
 		}
@@ -155,6 +155,15 @@ func (g *Gen) IntentionsJSON() string {
 		srcs = append(srcs, s)
 	}
 	return mustJSON(M{"Kind": "service-intentions", "Name": dest, "Sources": srcs})
+}
+
+// wild: the wildcard service name, unless the world asked for gateway entries without wildcards (the
+// wildcard expansion is order dependent on the unchanged tree: known finding C07-wildcard-gateway-link-order-dependent)
+func (g *Gen) wild() []string {
+	if g.W.NoGatewayWildcard {
+		return nil
+	}
+	return []string{"*"}
 }
 
 func (g *Gen) ceName(text string) (kind, name string) {
